@@ -8,8 +8,8 @@ CC_PROPS = ["C01", "C02", "C05", "C06", "C08", "C09", "C11", "C12", "C13", "C14"
 
 TIERS = {
     # universe -> MaxEqs
-    "quick": {"U1": 2, "U2": 2, "U3": 2, "U4": 2, "U5": 2, "U6": 2, "U7": 3, "U8": 2, "U9": 3, "U10": 2, "U11": 2, "U12": 2, "U13": 2, "U14": 2, "U15": 2, "U16": 2, "U17": 3},
-    "thorough": {"U1": 3, "U2": 3, "U3": 3, "U4": 3, "U5": 3, "U6": 3, "U7": 4, "U8": 3, "U9": 4, "U10": 3, "U11": 3, "U12": 3, "U13": 3, "U14": 3, "U15": 3, "U16": 3, "U17": 3},
+    "quick": {"U1": 2, "U2": 2, "U3": 2, "U4": 2, "U5": 2, "U6": 2, "U7": 3, "U8": 2, "U9": 3, "U10": 2, "U11": 2, "U12": 2, "U13": 2, "U14": 2, "U15": 2, "U16": 2, "U17": 3, "U18": 2},
+    "thorough": {"U1": 3, "U2": 3, "U3": 3, "U4": 3, "U5": 3, "U6": 3, "U7": 4, "U8": 3, "U9": 4, "U10": 3, "U11": 3, "U12": 3, "U13": 3, "U14": 3, "U15": 3, "U16": 3, "U17": 3, "U18": 3},
 }
 
 
@@ -75,7 +75,13 @@ def cc_tables(tier, tag, pool_delta=0, with_random=True, with_matches=False):
     returns {uname: (uni, table_path, stats, states, universe_path)}"""
     import concurrent.futures
     out = {}
+    # development aid: VERIF_ONLY_UNIVERSES=U18,U4 restricts a run to the named hand-written universes (never set by the registered commands)
+    only = [x for x in os.environ.get("VERIF_ONLY_UNIVERSES", "").split(",") if x]
+    if only:
+        with_random = False
     for u, maxeqs in TIERS[tier].items():
+        if only and u not in only:
+            continue
         uni = json.load(open(os.path.join(UNIV, u + ".json")))
         k, v = _one_table(u, uni, maxeqs, tag, pool_delta, None, with_matches)
         out[k] = v
@@ -326,7 +332,7 @@ def collect_cc(prop, tier):
     namings = "all" if prop == "C11" else "rotate"
     # C04 / C05: TLC also emits the complete expected match sets of the pattern pool (EMatch.tla)
     tables = cc_tables(tier, prop, with_matches=prop in ("C04", "C05"))
-    if prop not in ("C04", "C11"):
+    if prop not in ("C04", "C11") and not os.environ.get("VERIF_ONLY_UNIVERSES"):
         tables.update(sim_tables(tier, prop))
     findings, summaries = [], []
     for variant in variants:
